@@ -386,7 +386,7 @@ fn main() {
         ctx.rep.witness("pair_composed", 0);
     }
     drop(ctx);
-    for w in ["ok", "pass_through_err", "readiness_err", "further_attempts_made", "further_attempt_met_readiness_error", "listener_panicked_and_was_contained", "event_kinds_triggered", "stack_ran"] {
+    for w in ["ok", "pass_through_err", "readiness_err", "further_attempts_made", "further_attempt_met_readiness_error", "listeners_checked_for_lock_context", "listener_panicked_and_was_contained", "event_kinds_triggered", "stack_ran"] {
         rep.require_witness(w);
     }
     rep.bounds = json!({"variants": ALL.len(), "inner_kinds": 3, "readiness_scripts": 3, "listener_subsets": 8});
